@@ -70,7 +70,12 @@ func (sc *metaScn) c06Check(st *metaStep) {
 			rb, ra := st.before.subs[ownerBefore], st.after.subs[ownerBefore]
 			lostO := !ra.ModeWant.IsOwner() || !ra.ModeGiven.IsOwner()
 			lostJ := rb.ModeWant.IsJoiner() && !ra.ModeWant.IsJoiner()
-			if st.Code < 300 || lostO || lostJ {
+			if lostJ && !lostO {
+				// the statement protects ownership, not the J bit: an owner who keeps O but drops J (possible
+				// through an unattached session) is still the one owner. Recorded, not judged.
+				r.InfoAdd("owner_dropped_J_kept_O", 1)
+			}
+			if (st.Code < 300 && !argMode.IsOwner()) || lostO {
 				r.Violation("owner-gave-up-ownership", fmt.Sprintf("owner's request for mode %q was not refused (code %d, want %s -> %s)", st.Arg, st.Code, rb.ModeWant, ra.ModeWant), sc.wit(st, nil))
 			}
 		}
@@ -255,7 +260,20 @@ func metaScenario(sc *metaScn, idx int) {
 			// candidate first subscribes asking for everything, later is offered ownership
 			sc.after(sc.do(sc.actor("candidate"), "sub", nil, "JRWPASDO"))
 			sc.after(sc.do(own, "setOther", sc.actor("candidate"), "JRWPASDO"))
+			// a member is granted A but does not ask for it: the grant alone does not make an approver
+			sc.after(sc.do(own, "setOther", sc.actor("member"), "JRWPAS"))
+			sc.after(sc.do(sc.actor("member"), "setOther", sc.actor("sharer"), "JR"))
+			sc.after(sc.do(sc.actor("member"), "delSub", sc.actor("admin"), ""))
+			r.Hit("granted_but_not_requested_approver")
 		case 1:
+			// while the topic is not loaded the owner's own request takes the hub's offline path: giving up O or J
+			// must be refused there as well, and so must a member's request for O
+			sc.whileUnloaded(func() {
+				sc.after(sc.do(own, "setSelf", nil, []string{"JRWPS", "JRWPASD", "RWPASDO", "N"}[rng.Intn(4)]))
+				sc.after(sc.do(sc.actor("member"), "setSelf", nil, "JRWPSO"))
+				sc.after(sc.do(sc.actor("member"), "setSelf", nil, "JRW"))
+				r.Hit("offline_owner_cannot_give_up")
+			})
 			sc.after(sc.do(sc.actor("candidate"), "sub", nil, ""))
 			sc.after(sc.do(own, "setOther", sc.actor("candidate"), "JRWPASDO"))
 			sc.after(sc.do(sc.actor("candidate"), "setSelf", nil, "JRWPASDO"))
@@ -267,6 +285,12 @@ func metaScenario(sc *metaScn, idx int) {
 			sc.after(sc.do(sc.actor("candidate"), "sub", nil, ""))
 			sc.after(sc.do(own, "setOther", sc.actor("candidate"), "JRWPASDO"))
 			sc.after(sc.do(own, "setOther", sc.actor("member"), "JRWPASDO"))
+			// a transferee who has not accepted the offer tries to pass ownership on
+			sc.after(sc.do(sc.actor("member"), "setOther", sc.actor("admin"), "JRWPASO"))
+			sc.after(sc.do(own, "setOther", sc.actor("admin"), "JRWPASDO"))
+			sc.after(sc.do(sc.actor("admin"), "setOther", sc.actor("sharer"), "JRWPASO"))
+			sc.after(sc.do(sc.actor("admin"), "setOther", sc.actor("candidate"), "JRWPASDO"))
+			r.Hit("pending_offeree_cannot_grant_ownership")
 			// a transferee bans itself and re-joins without naming a mode: the pending offer must stay pending
 			sc.after(sc.do(sc.actor("candidate"), "setSelf", nil, "N"))
 			sc.after(sc.do(sc.actor("candidate"), "sub", nil, ""))
@@ -339,6 +363,9 @@ func (sc *metaScn) after(st *metaStep) {
 	case "C06":
 		sc.c06Check(st)
 	case "C07":
+		sc.c07Check(st)
+	case "C05":
+		// who may act is decided by the effective mode (want & given): the authorisation clauses apply here too
 		sc.c07Check(st)
 	case "C08":
 		sc.c08Check(st)
